@@ -61,6 +61,8 @@ def make_spec(rng, j, k):
     if rng.random() < 0.5:
         kinds = [kinds[0]] * n
     ladder = str(rng.choice(["tight", "wide", "unsorted"])) if n >= 2 else "tight"
+    if n >= 2 and (j + k) % 4 == 1:
+        ladder = "unsorted"   # every run has some ladders that are not in increasing order
     if ladder == "tight":
         temps = list(np.cumprod([1.0] + list(rng.uniform(1.2, 1.8, size=n - 1))))
     elif ladder == "wide":
